@@ -5,9 +5,13 @@
    (multithreaded_reader.rs next to io::Reader, one run segment read to the end; the reader after
    the repairs of mtr-frame-error-discarded-by-pause and mtr-read-hangs-after-buffer-count-corrupt-blocks).
    A schedule is an arbitrary list of actions (Submit | Start | Complete t | Take | Emit); disabled
-   actions are no-ops, so the theorems quantify over every interleaving and completion order. *)
+   actions are no-ops, so the theorems quantify over every interleaving and completion order.
+   Module OPS at the end: NV.Bgzf.MtReaderOps -- MultithreadedReader OP HISTORIES with seeks, byte
+   cursor, get_mut and finish, proved equal to the single-threaded reader model of property C02
+   (NV.Bgzf.ReaderOps) for every pool size and every schedule. *)
 From Coq Require Import List Arith Bool NArith.
 From NV Require Import Io.Sched Io.SchedProofs Bgzf.MtWriter Bgzf.MtWriterProofs Bgzf.MtReader Bgzf.MtReaderProofs.
+From NV Require Bgzf.Vpos Bgzf.Gzi Bgzf.ReaderOps Bgzf.MtReaderOps Bgzf.MtReaderOpsProofs.
 Import ListNotations.
 
 (* ---------------------------------------------------------------- generic pipeline *)
@@ -155,8 +159,10 @@ Print Assumptions c03_writer_window.
    by seek_to_virtual_position) is the same code in Reader and MultithreadedReader (Block/Data) and
    is NOT modelled; seeks appear as "the segment is abandoned after k tickets" (theorem
    c03_reader_segment_after_k_tickets) followed by a fresh segment.  The statement over op
-   sequences with byte counts and seeks is checked on the implementation only (L3).  The full
-   statement, for a sequence of segments (frames from the seek target, tickets taken before the
+   sequences with byte counts and seeks is proved in Module OPS below for well-formed files
+   (OPS.c03_mt_reader_equals_st); what stays PARTIAL is a history that runs into a corrupt block:
+   this block-granular segment theorem covers it only up to the first seek.  The full
+   statement of THIS block-granular model, for a sequence of segments (frames from the seek target, tickets taken before the
    next seek, schedule of that segment): *)
 Definition c03_reader_equals_st_full_statement : Prop :=
   forall (P : nat) (segments : list (list frame * nat * list act)),
@@ -259,3 +265,132 @@ Example c03_reader_truncated_frame :
                    [1; 0]
   = Some ([(0, 100); (1, 200)]%N, 110%N, true, false).
 Proof. vm_compute; reflexivity. Qed.
+
+(* ============================================================================================
+   OP HISTORIES of the MultithreadedReader (model: NV.Bgzf.MtReaderOps -- State::{Paused, Running,
+   Done}, resume/pause with the reader thread's read-ahead over the worker_count + 2 buffers,
+   read_block over the ticket pipeline NV.Io.Sched, fill_buf / consume / read / read_exact /
+   default_read_exact / read to the end / virtual_position on Block+Data, seek_to_virtual_position
+   with the repaired "no block read here" case, seek_with_index, get_mut, finish) against the
+   single-threaded reader model of property C02 (NV.Bgzf.ReaderOps, the reader after its repair).
+   ============================================================================================ *)
+Module OPS.
+Import NV.Bgzf.Vpos NV.Bgzf.Gzi NV.Bgzf.ReaderOps NV.Io.Sched NV.Bgzf.MtReaderOps NV.Bgzf.MtReaderOpsProofs.
+
+(* FULL STATEMENT of the reader half of the property over parsed well-formed files: for EVERY file
+   (frames of positive size with at most 65536 data bytes each, empty blocks anywhere), EVERY pool
+   size P >= 1, EVERY scheduler (which pipeline actions -- the reader thread reads the next frame,
+   a pool thread starts a task, ANY running task completes, the application takes a ticket / a
+   result -- are played during each wait for a block, i.e. every completion order and every
+   interleaving; tickets and tasks in flight at a seek are dropped), EVERY index and EVERY history of
+   operations (read, read_exact, default_read_exact, fill_buf, consume, read to the end,
+   seek_to_virtual_position, seek_with_index): the result of each operation and the virtual
+   position after it are exactly those of the single-threaded reader. *)
+Theorem c03_mt_reader_equals_st :
+  forall (P : nat) (sch : nat -> list act) (f : file) (idx : gzi_index) (ops : list op),
+    (0 < P)%nat -> Forall (fun b => (0 < csize b /\ flen b <= 65536)%N) f ->
+    m_run P sch f idx (m_init f) (map MOp ops) = ReaderOps.run true f idx (ReaderOps.init f) ops.
+Proof. intros P sch f idx ops HP Hf. exact (mt_reader_equals_st P sch HP f idx ops Hf). Qed.
+Print Assumptions c03_mt_reader_equals_st.
+
+(* hence nothing depends on the pool size or the schedule *)
+Theorem c03_mt_reader_schedule_indep :
+  forall P sch P' sch' f idx ops,
+    (0 < P)%nat -> (0 < P')%nat -> Forall (fun b => (0 < csize b /\ flen b <= 65536)%N) f ->
+    m_run P sch f idx (m_init f) (map MOp ops) = m_run P' sch' f idx (m_init f) (map MOp ops).
+Proof. intros. rewrite !c03_mt_reader_equals_st by assumption. reflexivity. Qed.
+Print Assumptions c03_mt_reader_schedule_indep.
+
+(* The schedules quantified over are ALL complete schedules: a wait for a block ("pull") plays the
+   scheduler's actions and then a canonical completion; when the scheduler's own actions already
+   end the wait, the canonical part does nothing ... *)
+Theorem c03_mt_pull_any_complete_schedule :
+  forall P seg s, pfinal (fold_left (pstep P) seg (start_pull s)) = true ->
+    pull_with P seg s = fold_left (pstep P) seg (start_pull s).
+Proof. exact pull_complete_schedule. Qed.
+Print Assumptions c03_mt_pull_any_complete_schedule.
+
+(* ... and every wait does end (no deadlock between the reader thread, the worker_count + 2
+   buffers, the pool and the application, for any pool >= 1): read_block returns. *)
+Theorem c03_mt_pull_ends :
+  forall P, (0 < P)%nat -> forall s, SchedProofs.wf frame rdr s -> pfinal (pcomplete P s) = true.
+Proof. exact pcomplete_final. Qed.
+Print Assumptions c03_mt_pull_ends.
+
+(* Whatever the schedule, read_block leaves the application where the single-threaded reader's
+   read_nonempty_block loop leaves it (empty blocks skipped, the last frame taken is current). *)
+Theorem c03_mt_pull_is_next_nonempty :
+  forall P, (0 < P)%nat -> forall seg s, SchedProofs.wf frame rdr s ->
+    let s' := pull_with P seg s in
+    SchedProofs.wf frame rdr s' /\
+    match next_nonempty (remaining s) (r_position (cs s)) with
+    | None =>
+        remaining s' = [] /\
+        cs s' = mkRdr true (r_position (cs s)) (r_blk (cs s)) (S (pulls (cs s)))
+    | Some (b, p, r, np) =>
+        remaining s' = r /\
+        cs s' = mkRdr (flen b =? 0)%N np (mkBlk p (csize b) (fdata b) 0) (S (pulls (cs s)))
+    end.
+Proof. exact pull_spec. Qed.
+Print Assumptions c03_mt_pull_is_next_nonempty.
+
+(* finish() after ANY history, under every schedule: it returns (no panic, the join ends), hands
+   the inner reader back (at an offset inside the file), and everything delivered before is what
+   the single-threaded reader delivers. *)
+Theorem c03_mt_finish_returns :
+  forall (P : nat) (sch : nat -> list act) (f : file) (idx : gzi_index) (ops : list op),
+    (0 < P)%nat -> Forall (fun b => (0 < csize b /\ flen b <= 65536)%N) f ->
+    exists off vp,
+      m_run P sch f idx (m_init f) (map MOp ops ++ [Finish])
+      = ReaderOps.run true f idx (ReaderOps.init f) ops ++ [(OPos (Ok off), vp)] /\ (off <= csum f)%N.
+Proof. intros P sch f idx ops HP Hf. exact (finish_returns P sch HP f idx ops Hf). Qed.
+Print Assumptions c03_mt_finish_returns.
+
+(* get_mut() directly before a seek to a frame boundary (the documented use) changes nothing:
+   on the ops both readers have, the history equals the single-threaded reader's. *)
+Theorem c03_mt_get_mut_before_seek :
+  forall (P : nat) (sch : nat -> list act) (f : file) (idx : gzi_index) (ops : list mop),
+    (0 < P)%nat -> Forall (fun b => (0 < csize b /\ flen b <= 65536)%N) f -> guarded f ops ->
+    sel ops (m_run P sch f idx (m_init f) ops) = ReaderOps.run true f idx (ReaderOps.init f) (strip ops).
+Proof. intros P sch f idx ops HP Hf G. exact (mt_reader_get_mut_before_seek P sch HP f idx ops Hf G). Qed.
+Print Assumptions c03_mt_get_mut_before_seek.
+
+(* what pause() (get_mut, finish, seek) does to the blocks in flight: they are dropped, and the
+   reader thread stops at most worker_count + 2 frames past what the application has taken *)
+Theorem c03_mt_pause_readahead_bound :
+  forall P, (0 < P)%nat -> forall fuel (s : pst),
+    exists k, todo (drain P fuel s) = skipn k (todo s) /\
+      (k = 0 \/ k + length (chan s) + (if is_some (hold s) then 1 else 0) <= P + 2)%nat.
+Proof. intros P HP. exact (drain_spec P (fun _ => []) HP). Qed.
+Print Assumptions c03_mt_pause_readahead_bound.
+
+(* get_mut() NOT followed by a seek is outside the property (the inner reader is where the
+   read-ahead left it, and reading on skips the frames in flight): the model shows it.  P = 1:
+   after the first block, get_mut leaves the inner reader 1 + 3 frames into the file; the read
+   after the current block is exhausted continues with frame 4, not frame 1 (and the reported
+   virtual position, 60:0, is not where that frame ends, 150:0). *)
+Example c03_get_mut_then_read_skips_blocks :
+  let f := [mkFrame 30 [1]; mkFrame 30 [2]; mkFrame 30 [3]; mkFrame 30 [4]; mkFrame 30 [5]; mkFrame 28 []]%N in
+  m_run 1 (fun _ => []) f [] (m_init f) [MOp (Read 1); GetMut; MOp (Read 1)]
+  = [ (OBytes (Ok [1]), Ok (pack 30 0)); (OPos (Ok 120), Ok (pack 30 0)); (OBytes (Ok [5]), Ok (pack 60 0)) ]%N.
+Proof. vm_compute. reflexivity. Qed.
+
+(* non-vacuity: data, an empty block, data, the EOF marker; pool of 2; during the first wait all
+   frames are read, three tasks started and completed in the order 2, 0, 1 before any result is
+   taken; a seek to the empty block lands on the data block after it, get_mut + seek to the end
+   leaves an empty block there, finish hands the inner reader back at the end of the file. *)
+Example c03_mt_reader_example :
+  let f := [mkFrame 30 [1; 2; 3]; mkFrame 28 []; mkFrame 31 [4; 5; 6; 7]; mkFrame 28 []]%N in
+  let sch := sch_of [[0; 0; 0; 1; 1; 1; 6; 4; 5; 2; 3]; []; [0; 1; 4]]%nat in
+  let ops := [MOp (Read 2); MOp FillBuf; MOp (Consume 1); MOp (ReadExact 3); MOp (Seek (pack 30 0));
+              MOp (Read 10); GetMut; MOp (Seek (pack 117 0)); MOp FillBuf]%N in
+  m_run 2 sch f [] (m_init f) (ops ++ [Finish])
+  = [ (OBytes (Ok [1; 2]), Ok (pack 0 2)); (OBytes (Ok [3]), Ok (pack 0 2)); (OUnit, Ok (pack 30 0));
+      (OBytes (Ok [4; 5; 6]), Ok (pack 58 3)); (OPos (Ok (pack 30 0)), Ok (pack 58 0));
+      (OBytes (Ok [4; 5; 6; 7]), Ok (pack 89 0)); (OPos (Ok 117), Ok (pack 89 0));
+      (OPos (Ok (pack 117 0)), Ok (pack 117 0));
+      (OBytes (Ok []), Ok (pack 117 0)); (OPos (Ok 117), Ok (pack 117 0)) ]%N
+  /\ guarded f ops
+  /\ sel ops (m_run 2 sch f [] (m_init f) ops) = ReaderOps.run true f [] (ReaderOps.init f) (strip ops).
+Proof. vm_compute. repeat split; try reflexivity; discriminate. Qed.
+End OPS.
